@@ -98,7 +98,15 @@ def run(chk):
                     loads[(convert, cleaned)] = cc.load(zd, cleaned=cleaned, convert_units=convert, fields='all')
                 except Exception as e:  # noqa
                     chk.violation(f'load-raises-{type(e).__name__}', f'Box={box} Vel={vel} convert_units={convert} cleaned={cleaned} fields=all: {type(e).__name__}: {e}', dict(box=box, vel=vel))
-        for (convert, cleaned), cobj in loads.items():
+        # the same columns requested explicitly, in reversed and in shuffled order (loaders must not depend on what was loaded before them)
+        allcols = sorted(kinds)
+        for oname, order in (('reversed', allcols[::-1]), ('shuffled', list(rng.permutation(allcols))), ('refs-last', [c for c in allcols if not c.startswith(('r100', 'sigmav3d_'))] + [c for c in allcols if c.startswith(('r100', 'sigmav3d_'))])):
+            try:
+                loads[(True, False, oname)] = cc.load(zd, cleaned=False, convert_units=True, fields=[str(c) for c in order])
+            except Exception as e:  # noqa
+                chk.violation(f'load-raises-{type(e).__name__}-{oname}', f'Box={box} Vel={vel} explicit field list ({oname} order): {type(e).__name__}: {e}', dict(box=box, vel=vel))
+        for key3, cobj in loads.items():
+            convert, cleaned = key3[0], key3[1]
             b, v = (box, vel) if convert else (1, 1)
             H = cobj.halos
             for col, kind in kinds.items():
